@@ -5,9 +5,16 @@ package main
 
 var ctfeIgnore = []string{"klog.", "alignedGetEntries.", "li.RequestLog."}
 
-func allFiles() []genFile {
+var registry []genFile
+
+// register adds one generated Lean module; each k_*.go file registers its own from init().
+func register(g genFile) { registry = append(registry, g) }
+
+func allFiles() []genFile { return registry }
+
+func init() {
 	h := "trillian/ctfe/handlers.go"
-	handlers := genFile{name: "Handlers", imports: []string{"CTV.Basic.I64"}, units: []unit{
+	register(genFile{name: "Handlers", imports: []string{"CTV.Basic.I64"}, units: []unit{
 		{"MaxGetEntriesAllowed", constKernel(h, "MaxGetEntriesAllowed", "maxGetEntriesAllowed", intLit)},
 		{"parseGetEntriesRange", funcKernel(h, "parseGetEntriesRange", "parseGetEntriesRange",
 			"(start_ end_ maxRange_ : Int) (align : Bool)", "Option (Int × Int)",
@@ -23,6 +30,5 @@ func allFiles() []genFile {
 			Spec{Kind: "i64", Ret: "errlast", InputCalls: []string{"strconv.ParseInt", "r.FormValue"}, Ignore: ctfeIgnore,
 				Repl: map[string]string{`firstVal == ""`: "firstMissing", `secondVal == ""`: "secondMissing"}})},
 		{"toHTTPStatus", switchTable(h, "logInfo.toHTTPStatus", "rpcStatus.Code()", "codeToStatus", fromMap(grpcCodes), fromMap(httpStatus))},
-	}}
-	return []genFile{handlers}
+	}})
 }
